@@ -977,6 +977,14 @@ def raised_key(drv, e):
     the case started (modes shared-prepopulated / shared-unrelated); 'own-taxa-only' = the route made its own
     namespace or was handed one that was empty / held only taxa earlier reads of this same document put there."""
     state = "own-taxa-only" if e.get("own_ns") is not None else drv.ns_state
+    # a shared namespace that started empty may by now hold MORE taxa than the document has leaf taxa: earlier reads of this
+    # same document with suppress_internal_node_taxa=False / suppress_external_node_taxa=True registered its internal node
+    # labels as taxa.  For the NTAX accounting of the recorded defect those are taxa "other than the block's own" exactly
+    # like a client's foreign taxa (a thorough run on a fresh seed met this; the key said own-taxa-only).
+    n_doc = drv.doc.get("n_taxa")
+    size = (e.get("extra") or {}).get("ns_size_before")
+    if state == "own-taxa-only" and e.get("own_ns") is None and n_doc is not None and size is not None and size > n_doc:
+        state = "foreign-taxa"
     key = "raised-where-others-deliver|%s|%s|%s|%s" % (err_disc(e["error"]), drv.schema, family(e["route"]), state)
     if drv.doc.get("taxa_blocks", 0) > 1:
         key += "|several-taxa-blocks"
